@@ -562,3 +562,50 @@ def r_cache_key(cx):
               "cache hits and file look-ups disagree (e.g. on letter case)" % (kind, mir.show(v)[:50]),
               cx.where(f.term(bb)["span"]))
     cx.count("R-CACHE-KEY", "cache_accesses", n)
+
+
+# ---------------------------------------------------------------------------------------------------------------------
+# R-SEARCH-ALL-PATHS (C18): a search path that does not have the item does not end the search
+
+@rule("R-SEARCH-ALL-PATHS", ["C18"])
+def r_search_all_paths(cx):
+    """Plain::get_resource (and the grid file search) try every directory of the search path in turn. The loop over
+    the paths is left early only with a result (a `return`): there is no `break` that falls through to the
+    "not found" error behind the loop while later directories have not been looked at."""
+    n = 0
+    for name in ("<context::plain::Plain as context::Context>::get_resource",
+                 "context::plain::GridCollection::get_grid"):
+        if not cx.f.has_fn(name):
+            continue
+        f = cx.f.fn(name)
+        for lp in f.loops():
+            if lp.parent is not None:
+                continue
+            full = f.term(lp.header).get("callee_full", "")
+            if "PathBuf" not in full:
+                continue
+            n += 1
+            hs = {lp.header} | {x for x in f.succ[lp.header] if x in lp.body}
+            done = {b for (a, b) in lp.exits if a in hs and f.term(b)["k"] not in ("unreachable", "resume")}
+            early = []
+            behind = {x for x in f.reach_from(list(done)) if f.term(x)["k"] == "call" and x not in lp.body}
+            for (a, b) in lp.exits:
+                if a in hs:
+                    continue
+                t = f.term(a)
+                if f.term(b)["k"] in ("unreachable", "resume", "abort"):
+                    continue
+                if t["k"] == "call" and b != t.get("target"):
+                    continue
+                if t["k"] in ("assert", "drop") and b != t.get("target"):
+                    continue
+                # an early exit that goes on to the code behind the loop (the construction of the "not found"
+                # error), possibly after dropping some locals - as opposed to returning a result
+                if b in done or (f.reach_from([b]) & behind):
+                    early.append((a, b))
+            cx.ob("R-SEARCH-ALL-PATHS", "%s/loop%d" % (name.rsplit("::", 1)[-1], n - 1), not early,
+                  "the loop over the search paths of %s is left early only by returning a result" % name if not early else
+                  "%s can `break` out of the loop over its search paths and report `not found` although later "
+                  "directories have not been searched" % name,
+                  cx.where(f.term(early[0][0])["span"]) if early else cx.where(f.term(lp.header)["span"]))
+    cx.count("R-SEARCH-ALL-PATHS", "path_loops", n)
